@@ -10,7 +10,7 @@ from sim.profiles.base import URL, PEER
 from sim.profiles.fsm import FsmCtx, FsmProfile, swarm_config, PHASES
 
 METHODS = ["GET", "POST", "HEAD", "PUT", "DELETE", "PATCH", "OPTIONS"]
-CREDS = ["none", "baduser", "badpass", "empty", "ok"]
+CREDS = ["none", "baduser", "badpass", "empty", "unknown_nopw", "known_nopw", "case", "ok"]
 SEND_ROUTES = ("send/update", "send/route-refresh", "send/bin_update")
 GATED_ROUTES = SEND_ROUTES + ("adj-rib-in", "adj-rib-out", "json_to_bin")
 WELL_KNOWN = {"NO_EXPORT": 0xFFFFFF01, "NO_ADVERTISE": 0xFFFFFF02}
@@ -80,6 +80,10 @@ class RestCtx(FsmCtx):
         thread_due = [i for i, c in enumerate(w.reactor.due()) if c.kind == "thread" and c.time <= w.now()]
         if thread_due and rng.chance(0.9):
             return ["fire", thread_due[0]]
+        if getattr(self, "only_it", None) is not None and rng.chance(0.8):
+            now_due = [i for i, c in enumerate(w.reactor.due()) if c.time <= w.now()]
+            if now_due:
+                return ["fire", now_due[0]]
         if self.prefix_left > 0:
             self.prefix_left -= 1
             op = FsmCtx.choose(self, rng)
@@ -102,7 +106,7 @@ class RestCtx(FsmCtx):
             method, cred = "POST", "ok"
         elif r < 0.75:
             method = rng.pick([m for m in methods if m != "OPTIONS"] or ["GET"])
-            cred = rng.pick(CREDS[:4])
+            cred = rng.pick(CREDS[:-1])
         else:
             method = rng.pick(METHODS)
             cred = rng.pick(CREDS)
@@ -174,6 +178,7 @@ class RestCtx(FsmCtx):
     def step(self, op):
         w = self.world
         if op[0] == "rest":
+            self.seq_before_rest = w.reactor._seq
             self.snap = snapshot(w)
             self.est_before = w.state() == "ESTABLISHED"
             self.cur_before = self.current_cid()
@@ -187,6 +192,25 @@ class RestCtx(FsmCtx):
 
     def after_step(self, op, pos, evs, labels, toks, handler, cell):
         w = self.world
+        # "... and only it": calls that become due at the very instant of a successful send (the deferred
+        # write itself, zero-delay timers) may put nothing but the requested message on the wire
+        oi = getattr(self, "only_it", None)
+        if oi is not None:
+            if w.now() > oi["t"] + 1e-9 or op[0] not in ("fire", "rest"):
+                self.only_it = None
+            elif op[0] == "fire":
+                fired = [e for e in w.log[pos:] if e[2] == "fire"]
+                # only calls scheduled or re-timed by the send itself count (a timer that was due at this
+                # instant anyway is none of the send's business)
+                caused = bool(fired) and fired[0][5] > oi["seq"]
+                for t in toks if caused else []:
+                    if t[0] == "tx" and t[1] == oi["cid"]:
+                        if t[2] == "UPDATE" and oi["allowed"] > 0:
+                            oi["allowed"] -= 1
+                        else:
+                            raise Violation("C16", "send", "%s/extra-message-at-the-instant-of-the-send:%s" % (oi["what"], self.abs_tok(t).split("(")[0]),
+                                            "%s reported success; besides the requested message the agent wrote %s at the same "
+                                            "instant (negotiated hold time %s)" % (oi["what"], self.abs_tok(t), w.factory.fsm.hold_time))
         # resolve deferred writes
         for e in w.log[pos:]:
             if e[2] == "fire" and e[3] == "thread":
@@ -284,6 +308,7 @@ class RestCtx(FsmCtx):
         # update / bin_update are written by a deferred call on the reactor thread
         if grown:
             raise Violation("C16", "send", "%s/wrote-synchronously-something-else" % what, "%s wrote %s before its deferred write" % (what, rp.describe(grown)))
+        self.only_it = {"cid": cid, "t": w.now(), "what": what, "allowed": 1, "seq": self.seq_before_rest}
         exp = {"cid": cid, "route": route, "body": body, "off": len(c.written), "query": op[5] if len(op) > 5 else None,
                "as4": self.session_as4(cid), "conn_ended": False, "ibgp": self.cfg["local_as"] == self.cfg["remote_as"]}
         self.pending.append(exp)
